@@ -11,6 +11,7 @@ import SonicModel.Lemmas.NumSkipProof
 import SonicModel.Lemmas.StrBlockProof
 import SonicModel.Lemmas.SpaceProof
 import SonicModel.Lemmas.DomSound
+import SonicModel.Lemmas.DomPad
 namespace Sonic.Thm.C02
 open Sonic Gen
 
@@ -107,6 +108,25 @@ theorem decoding_parser_accepts_only_wellformed (buf : Buf) (t : Spec.Json) (h :
 theorem decoding_accept_iff (buf : Buf) : (DomP.document buf).isSome = true ↔ (Spec.document true buf).isSome = true :=
   DomP.document_accept_iff buf
 
+/-- **the grammar does not look behind a value** (`Lemmas/GrammarPad.lean`, `StrPad.lean`): a value that the specification reads
+    in `buf1 ++ suf` and that ends inside `buf1` is a value of `buf1` alone, with the same extent — numbers (maximal munch
+    and the finiteness test included), strings (the low-surrogate look-ahead included), literals, arrays, objects; at both
+    strengths; whatever `suf` is -/
+theorem value_ending_inside_a_prefix (s : Bool) (buf1 suf : Buf) (f w e : Nat)
+    (h : Spec.value s f (buf1 ++ suf) w = .ok e) (he : e ≤ buf1.size) : Spec.value s f buf1 w = .ok e :=
+  (GrammarPad.value_prefix s buf1 suf f).1 w e h he
+
+/-- **the whole-input parse as the code composes it accepts only strictly well-formed TEXT** (`Impl/DomPadded.lean`:
+    `from_slice::<Value>` = the decoding parser on the padded copy `t ++ x"x ++ zeros` that `parse_with_padding` makes, a value
+    that ends behind the text is an error (`n > len`), then `parse_trailing` allows only blanks up to the end of the text):
+    whatever it accepts, the specification accepts — as a document of `t`, not of its padded copy.  (With
+    `decoding_accept_iff`, the in-place decoder theorems of C09 and this, the accept side of the property's first sentence
+    is proved for the parser as it runs; the converse for the padded composition — a well-formed text stays acceptable
+    when the padding follows it — is compared on every case of this stream (`m.domp`), not proved.) -/
+theorem whole_input_parse_on_the_padded_copy_accepts_only_wellformed_text (t : Buf) (tr : Spec.Json)
+    (h : DomP.fromSlicePadded t = some tr) : ∃ s e, Spec.document true t = some (s, e) :=
+  DomP.fromSlicePadded_sound t tr h
+
 /-- the bytewise scan of `Space` is the scalar `skip_space` every other model uses -/
 theorem bytewise_is_scalar_skip_space (buf : Buf) (i : Nat) :
     Impl.skipSpace buf i = (match Space.bytewise buf i with | (some c, j) => some (c, j) | (none, _) => none) := by
@@ -177,5 +197,9 @@ example : (DomP.document #[91, 48, 49, 93]).isSome = false := by decide +kernel
 example : (DomP.document #[91, 49, 46, 93]).isSome = false := by decide +kernel
 example : (DomP.document #[34, 92, 117, 100, 56, 48, 48, 34]).isSome = false := by decide +kernel
 example : (DomP.document #[91, 49, 32, 50, 93]).isSome = false := by decide +kernel
+/-- on the padded copy: `ex1` is accepted, `"abc` (closed only by the sentinel quote) and `[1` are not -/
+example : (DomP.fromSlicePadded ex1).isSome = true := by decide +kernel
+example : (DomP.fromSlicePadded #[34, 97, 98, 99]).isSome = false := by decide +kernel
+example : (DomP.fromSlicePadded #[91, 49]).isSome = false := by decide +kernel
 
 end Sonic.Thm.C02
